@@ -67,7 +67,7 @@ func VerifH_Transact() {
 			symx.Assert(!drawn[i], "a step runs at most once")
 			drawn[i] = true
 			// the step's behaviour is drawn when it runs: steps that never run cost no paths
-			behave[i] = symx.Concrete(symx.Int("behave"), 0, 5) // 0 ok, 1 error, 2 panic(error), 3 runtime panic (nil map write), 4 panic(string), 5 a well-known error value
+			behave[i] = symx.Concrete(symx.Int("behave"), 0, 7) // 0 ok, 1 error, 2 panic(error), 3 runtime panic (nil map write), 4 panic(string), 5 a well-known error value, 6 panic(int), 7 panic(struct)
 			errs[i] = symx.NewError("step failed")
 			if behave[i] == 5 {
 				// the step fails with an error a driver, a context or gorm itself would hand it (possibly wrapped):
@@ -90,6 +90,10 @@ func VerifH_Transact() {
 				m["x"] = 1 // a runtime.Error
 			case 4:
 				panic("step blew up")
+			case 6:
+				panic(42) // a panic value need not be an error or a string
+			case 7:
+				panic(struct{ code int }{7})
 			}
 			return nil
 		}
